@@ -244,6 +244,11 @@ class EditDistance(SequenceEdit):
             return False
         elif self.is_complete() and not self.edit_matrix[-1][-1].bounds().definitive():
             return self.edit_matrix[-1][-1].tighten_bounds()
+        elif self.is_complete():
+            # The matrix is complete and its last cell is definitive, so there is nothing left to tighten.
+            # (Falling through would free the matrix in self.bounds() and then index into it.)
+            self._cleanup()
+            return False
         # We are still building the matrix
         initial_bounds: Range = self.bounds()
         while True:
